@@ -22,6 +22,10 @@ BAD_TEXTS = {
     'forbidden': 'AAA-MIB DEFINITIONS ::= BEGIN\n\nx OBJECT IDENTIFIER ::= { TRUE 1 }\nEND\n',
     'bignum': 'AAA-MIB DEFINITIONS ::= BEGIN\nx OBJECT IDENTIFIER ::= { y 99999999999999999999999999 }\nEND\n',
     'cut': 'AAA-MIB DEFINITIONS ::= BEGIN\nx OBJECT IDENTIFIER ::= { y 1 }\n\n\nz OBJECT IDENTIFIER ::= { x',
+    # failures before any module header is complete: what a wrong download looks like
+    'no-header-illegal': '<html><body>404 Not Found</body></html>\n',
+    'no-header-lower': 'all: build\n\tcc -o x x.c\n',
+    'name-only': '\n\nAAA-MIB\n',
     'multiline-string-then-error': 'AAA-MIB DEFINITIONS ::= BEGIN\nx OBJECT-TYPE SYNTAX INTEGER MAX-ACCESS read-only STATUS current DESCRIPTION "a\nb\nc\nd" ::= { y 1 }\n@\nEND\n',
 }
 
@@ -53,6 +57,37 @@ def status_obs(v):
     return d
 
 
+_tabmod = []
+
+
+class fast_tables(object):
+    """While active, `import pysmi.parser.parsetab` succeeds and yields LALR tables written by PLY itself for the
+    smiV1Relaxed grammar (PLY checks the grammar signature and recomputes for any other grammar)."""
+
+    def __enter__(self):
+        import sys
+        if not _tabmod:
+            import importlib.util
+            import os
+            from pysmi.parser import dialect
+            from pysmi.parser.smi import parserFactory
+            d = core.new_root('ptab')
+            with core.unhooked():
+                parserFactory(**dialect.smiV1Relaxed)(tempdir=d)
+                path = os.path.join(d, 'mibFile', 'parsetab.py')
+                spec = importlib.util.spec_from_file_location('pysmi.parser.parsetab', path)
+                m = importlib.util.module_from_spec(spec)
+                spec.loader.exec_module(m)
+            core.drop_root(d)
+            _tabmod.append(m)
+        sys.modules['pysmi.parser.parsetab'] = _tabmod[0]
+
+    def __exit__(self, *a):
+        import sys
+        sys.modules.pop('pysmi.parser.parsetab', None)
+        return False
+
+
 class Instances(object):
     """One set of pysmi objects (long-lived, or made for one operation)."""
 
@@ -75,7 +110,13 @@ class Instances(object):
         if d not in self.parsers:
             from pysmi.parser import dialect
             from pysmi.parser.smi import parserFactory
-            self.parsers[d] = parserFactory(**getattr(dialect, d))()
+            if self.is_fresh:
+                # reference objects only: PLY loads the LALR tables of the default dialect from a table module
+                # generated once per process instead of recomputing them (2 ms instead of 160 ms per parser)
+                with fast_tables():
+                    self.parsers[d] = parserFactory(**getattr(dialect, d))()
+            else:
+                self.parsers[d] = parserFactory(**getattr(dialect, d))()
         return self.parsers[d]
 
     def compiler(self, kind, d='smiV1Relaxed'):
@@ -204,6 +245,9 @@ def execute(inst, op, results, world=None):
     raise ValueError(kind)
 
 
+_fresh_cache = {}
+
+
 def run_history(hist):
     """Execute a history; -> list of records, one per op:
        {'long': obs digest, 'fresh': obs digest, 'long_obs': obs (small), 'same': bool}"""
@@ -237,7 +281,18 @@ def run_history(hist):
                 results_by_op[i] = long_results[-1]
             faulted = eff['op'] == 'fsc' and bool(eff.get('rate') or eff.get('faults'))
             mark = (w.seq, len(w.log), dict(w.counts), w.tmpn, len(w.points))
-            b = execute(fresh, eff, scratch, w) if hist.get('fresh', True) and not faulted else a
+            ckey = None
+            if eff['op'] == 'parse' or (eff['op'] == 'compile' and not eff.get('modules')):
+                # what objects made for this operation alone yield is a function of the operation: computed once per process
+                ckey = json.dumps(eff, sort_keys=True, default=repr)
+            if ckey is not None and ckey in _fresh_cache and hist.get('fresh', True):
+                b = _fresh_cache[ckey]
+            else:
+                b = execute(fresh, eff, scratch, w) if hist.get('fresh', True) and not faulted else a
+                if ckey is not None and hist.get('fresh', True):
+                    if len(_fresh_cache) > 400:
+                        _fresh_cache.clear()
+                    _fresh_cache[ckey] = b
             fresh.close()
             da, db = sha(a), sha(b)
             recs.append({'long': da, 'fresh': db, 'same': da == db, 'obs': _brief(a), 'fresh_obs': _brief(b), 'kind': eff['op'],
@@ -249,6 +304,7 @@ def run_history(hist):
                 if not faulted and eff.get('options', {}).get('rebuild') and hist.get('fresh', True):
                     # once faults have stopped, a rebuild yields what it yields on a tree that never saw a fault or an earlier call
                     pz = Instances()
+                    pz.is_fresh = True
                     n = fs_history.pristine(eff, w, long_lived.fs.get('last_muts', []), pz.parser(eff.get('dialect', 'smiV1Relaxed')))
                     recs[-1]['pristine'] = [_brief(fs_history.comparable_after_rebuild(a)), _brief(fs_history.comparable_after_rebuild(n))]
             # reference runs leave no trace in the world: seeded fault coins are indexed by event number, and a child
@@ -263,12 +319,16 @@ def run_history(hist):
                     if m in basemibs.ALL_BASE or len(b['written']) < 2:
                         continue
                     one = Instances()
+                    one.is_fresh = True
                     e1 = dict(eff)
                     e1['requested'] = [m]
                     o1 = execute(one, e1, [])
                     one.close()
                     if isinstance(o1, dict) and m in o1['written']:
                         solo[m] = [b['written'][m], o1['written'][m]]
+                        if b['status'].get(m, {}).get('s') == 'compiled' and o1['status'].get(m, {}).get('s') == 'compiled':
+                            # the module summary (OIDs, identity, revision, compliance ...) reported for it, too
+                            solo[m] += [_brief(b['status'][m]), _brief(o1['status'][m])]
                 recs[-1]['solo'] = solo
             w.end_op()
     long_lived.close()
